@@ -11,16 +11,28 @@ let hex_of_string s = hex_of_bytes (bytes_of_string s)
 let bs = bytes_of_string
 let split_on c s = if s = "-" || s = "" then [] else String.split_on_char c s
 
+let rec uniq = function [] -> [] | x :: r -> x :: uniq (List.filter (fun y -> y <> x) r)
+
 (* ---- description -> model ---- *)
 let parse_tables (s : string) : csrc =
-  let tables = List.map (fun p ->
+  let entries = List.map (fun p ->
       match String.split_on_char '=' p with
-      | [name; rows] ->
-          let r = int_of_string rows in
-          (bs name, List.init r (fun i ->
-               [ (bs "id", bs (String.sub name 0 1 ^ string_of_int i)); (bs "name", bs ("n" ^ string_of_int i)) ]))
+      | [name; rows] -> (name, int_of_string rows)
       | _ -> failwith "tables") (split_on ',' s) in
-  { cs_tables = tables; cs_glob = [ (bs "a", bs "va"); (bs "b", bs "vb") ] }
+  let tables = List.filter_map (fun (name, r) ->
+      if String.contains name '.' then None
+      else Some (bs name, List.init r (fun i ->
+          [ (bs "id", bs (String.sub name 0 1 ^ string_of_int i)); (bs "name", bs ("n" ^ string_of_int i)) ]))) entries in
+  (* src.list=n : list variable of the variables source src, elements src-list[0]<i> *)
+  let vl = List.filter_map (fun (name, n) ->
+      match String.index_opt name '.' with
+      | Some k ->
+          let src = String.sub name 0 k and lst = String.sub name (k + 1) (String.length name - k - 1) in
+          Some (src, (bs lst, List.init n (fun i -> bs (src ^ "-" ^ String.sub lst 0 1 ^ string_of_int i))))
+      | None -> None) entries in
+  let srcs = uniq (List.map fst vl) in
+  { cs_tables = tables; cs_glob = [ (bs "a", bs "va"); (bs "b", bs "vb") ];
+    cs_vlists = List.map (fun src -> (bs src, List.map snd (List.filter (fun (x, _) -> x = src) vl))) srcs }
 
 let parse_mapping (m : string) : n list * pexpr =
   match String.split_on_char ':' m with
@@ -28,6 +40,7 @@ let parse_mapping (m : string) : n list * pexpr =
   | [v; "L"; src; f] -> (bs v, PLast (bs src, bs f))
   | [v; "I"; src; i; f] -> (bs v, PIdx (bs src, z_of_string i, bs f))
   | [v; "G"; k] -> (bs v, PGlob (bs k))
+  | [v; "V"; src; l] -> (bs v, PVNext (bs src, bs l))
   | [v; "P"; r; x] -> (bs v, PPost (bs r, bs x))
   | [v; "Q"; r; x] -> (bs v, PPre (bs r, bs x))
   | _ -> failwith ("mapping " ^ m)
@@ -148,7 +161,6 @@ let print_shot_spec (names : n list list) (sname : string) (minw : z) (steps : (
   Printf.sprintf "[%s exp=%s sends=%s samples=%s pause=1 minw=1]" sname (print_expansion steps minw)
     (join "," sends) (join "," (sample_strs sname sr.sr_events))
 
-let rec uniq = function [] -> [] | x :: r -> x :: uniq (List.filter (fun y -> y <> x) r)
 
 (* documented expansion of every scenario (None where C15_expand's hypotheses do not hold) *)
 let spec_exps rq sc = List.map (fun s -> match items_of rq sc s with
